@@ -338,7 +338,7 @@ EXTRA = {
            "27 accessors (cut-off arguments, RWA energies and skeleton, transition energies, "
            "caller-mutated arrays, first read inside a basis context, state energies with "
            "vibrational quanta, values= route of CorrelationFunction, electronic Hamiltonian); 52-call "
-           "menu incl. loop bodies of public generators; refused units requests.",
+           "menu incl. loop bodies of public generators; refused units requests; sums of bath functions made inside the supplying context; derived unit-managed getters (measured reorganisation energy) read under every pair of units.",
     "C06": "five analytic bath types in the bath section; ground-state energy offsets; three requests "
            "at different temperatures on one object; requests inside units contexts; operator-form "
            "tensors converted inside/outside the context; the zero-frequency element is allowed the "
@@ -363,7 +363,7 @@ EXTRA = {
            "shifts; three-level molecules with all dipole patterns; per-state mode frequencies.",
     "C11": "explicit correlation-function matrices with cross terms; coupling cut-off; histories on "
            "one aggregate and on one calculator (re-bootstrap); dipole scale factors down to 1e-4; "
-           "common ground-state energy offsets.",
+           "common ground-state energy offsets; a second calculate() on one calculator after the aggregate was re-coupled and rebuilt; rotations that align every pair with every cube-lattice direction.",
     "C12": "calculator reuse across systems; scaled dipoles; the whole waiting-time axis with an "
            "independent pathway census; histories of requests on the aggregate before the response "
            "calculation (start states built / diagonalized); non-unit polarisation vectors.",
@@ -373,13 +373,13 @@ EXTRA = {
     "C14": "re-issue of the stored state; complex Hermitian contexts; nested non-commuting contexts; "
            "aggregate ground-state energy offsets; object histories before the request; relaxation "
            "Hamiltonians that do not commute with the aggregate Hamiltonian; multi-scale level "
-           "structures (kT far below the level spread, several levels populated).",
+           "structures (kT far below the level spread, several levels populated); Boltzmann ratio of weakly populated levels read in the eigenbasis (relative, not absolute).",
     "C15": "every call also inside ambient units / basis contexts; user refills of the initial-state "
            "objects; non-equilibrium Foerster; free_hierarchy; propagation-matrix corrections; "
            "refused calls; plain Hamiltonians without RWA; pure dephasing with persisted refinement; "
            "reads of inputs between calls; results of EARLIER calls held by the caller must not "
            "change; recalculate=False requests; cut-offs above every coupling; an overflowing run on "
-           "a shared hierarchy followed by ordinary runs.",
+           "a shared hierarchy followed by ordinary runs; Gaussian pure dephasing; the PureDephasing object of every propagator is part of the input snapshot.",
     "C16": "depths 10-14 for the index clauses; complex Hamiltonians; ground-state energy offsets; "
            "construction inside units contexts; call histories on one propagator (free_hierarchy, "
            "deeper then shallower requests, held results); time axes not starting at zero; commuting "
@@ -400,5 +400,5 @@ EXTRA = {
     "C20": "collective-protocol words over start/close/loop/allreduce with a locking communicator (a "
            "rank that skips a collective is a violation); persistent per-rank configurations over "
            "sequences of loops; nested regions; multi-dimensional arrays; reversed and huge ranges "
-           "(arithmetic partition check); reductions of operator form, rates with several components.",
+           "(arithmetic partition check); reductions of operator form, rates with several components; reduction of accumulators in every memory layout (C, Fortran, transposed view, slice); an absent block table is a violation.",
 }
